@@ -302,10 +302,8 @@ fn parse_at_rule(
                             let xs = x.to_ascii_lowercase();
                             let xs: &str = &xs;
                             if !matches!(xs, "layer" | "supports") {
-                                ss.add_warning(
-                                    error::ParseErrorKind::UnexpectedCharacter,
-                                    peek.position..peek.position,
-                                );
+                                // (any other function starts the media query list)
+                                has_media = true;
                                 break;
                             }
                             input.next().ok();
